@@ -64,6 +64,15 @@ def r1_worklists(ctx):
             ctx.check(kinds == {'fifo'} and ends <= {'back'}, 'spanned-fifo',
                       'Topology::spanned predicts the index of a queued module as src_idx + 1 + position, which is only right if the work list is consumed in FIFO order',
                       ext[0][0].where(), {'extraction': sorted(kinds), 'insertion': sorted(ends)})
+    # --- spanned: the module taken from the work list is a node BEFORE its gates are walked (a chain ending on the module itself must find it)
+    fsp = P.fns.get(T + '::spanned')
+    if fsp:
+        pushes = [c for c in fsp.calls() if c.name == 'std::vec::Vec::push' and receiver_field(fsp.expr_operand(c.args[0], c.b, 'T')) == 'nodes' and fsp.loops_containing(c.b)]
+        looks = [c for c in fsp.calls() if (c.callee or c.name).endswith(('Iterator::position', 'Iterator::find', 'Iterator::any')) and fsp.loops_containing(c.b) and
+                 any(x[0] == 'field' and x[2] == 'nodes' for x in walk(fsp.expr_operand(c.args[0], c.b, 'T')))]
+        if pushes and looks:
+            ok_ = all(any(fsp.dominates(p_.b, l_.b) and set(fsp.loops_containing(p_.b)) <= set(fsp.loops_containing(l_.b)) for p_ in pushes) for l_ in looks)
+            ctx.check(ok_, 'spanned-node-before-gates', 'spanned() appends the node of the module being expanded before looking up the owners of its chain ends', looks[0].where())
     # --- dijkstra
     f = ctx.anchor(T + '::dijkstra')
     if f:
@@ -323,6 +332,12 @@ def r3_filters(ctx):
             # all(.. all(.. any(back.dst == src))): the verdict is a conjunction over all edges of a reverse-edge search
             both = any((c.callee or '').endswith(('Iterator::any', '::contains')) for g2 in P.closures_of(h) for c in g2.calls())
         ctx.check(both, 'bidirectional-verdicts', 'bidirectional() checks a reverse edge for every edge', h.where())
+        # ... for EVERY edge: the traversals of the edge bundles are not narrowed (an unpaired edge u->v must be seen from u's side,
+        # whatever the order of u and v)
+        narrow = [c for g2 in [h] + P.closures_of(h) for c in g2.calls()
+                  if (c.callee or c.name).split('::')[-1] in ('filter', 'skip', 'take', 'step_by', 'skip_while', 'take_while', 'filter_map') and 'Iterator' in (c.callee or c.name)]
+        ctx.check(not narrow, 'bidirectional-all-edges', 'bidirectional() inspects every edge of every bundle (no filtered or truncated traversal)', narrow[0].where() if narrow else h.where(),
+                  [c.name for c in narrow])
 
 
 def run(ctx):
